@@ -11,6 +11,7 @@ package main
 import (
 	"fmt"
 	"go/token"
+	"go/types"
 	"os"
 	"regexp"
 	"sort"
@@ -84,6 +85,32 @@ func (c *Ctx) renderKind(v ssa.Value, depth int) string {
 
 		}
 	case *ssa.Call:
+		// a formatter chosen once by a flag and called through the variable: format := T.A; if c { format = T.B }; format(x)
+		if x.Common().StaticCallee() == nil && !x.Common().IsInvoke() {
+			if phi, ok := x.Common().Value.(*ssa.Phi); ok && len(phi.Edges) == 2 {
+				if cond, pol, ok := phiSelector(phi); ok {
+					var kinds [2]string
+					for i, e := range phi.Edges {
+						if f, ok := funcValue(e); ok {
+							cc := *x
+							cc.Call.Value = f
+							kinds[i] = c.renderKind(&cc, depth+1)
+						}
+					}
+					a, b := kinds[0], kinds[1]
+					if !pol {
+						a, b = b, a
+					}
+					if a != "" && b != "" {
+						if a == b {
+							return a
+						}
+						return "sel(" + cond.Name() + ";" + a + ";" + b + ")"
+					}
+				}
+			}
+			return ""
+		}
 		if callee := x.Common().StaticCallee(); callee != nil {
 			if _, f, args, ok := sprintfCall(x); ok {
 				switch f {
@@ -463,4 +490,105 @@ func phiOnlyOf(p, x *ssa.Phi) bool {
 		}
 	}
 	return true
+}
+
+
+// funcValue: v denotes one function (a function, a method expression, a closure).
+func funcValue(v ssa.Value) (ssa.Value, bool) {
+	switch x := v.(type) {
+	case *ssa.Function:
+		return unthunk(x), true
+	case *ssa.MakeClosure:
+		return x, true
+	case *ssa.ChangeType:
+		return funcValue(x.X)
+	}
+	return nil, false
+}
+
+// funcTargets: the functions a called value can denote, when that is a finite set read off the code: a
+// function or closure, a merge of such, or a parameter of an unexported function or closure whose every call
+// site passes such a value. nil when some possibility is unknown.
+func funcTargets(c *Ctx, v ssa.Value, depth int) []*ssa.Function {
+	return funcTargetsLive(c, v, nil, depth)
+}
+
+// funcTargetsLive is funcTargets with a filter on the incoming edges of merges (edges that are dead under
+// the constant bindings of a specialised analysis).
+func funcTargetsLive(c *Ctx, v ssa.Value, live func(phi *ssa.Phi, i int) bool, depth int) []*ssa.Function {
+	if depth > 4 {
+		return nil
+	}
+	switch x := v.(type) {
+	case *ssa.Function:
+		return []*ssa.Function{unthunk(x)}
+	case *ssa.MakeClosure:
+		if f, ok := x.Fn.(*ssa.Function); ok {
+			return []*ssa.Function{f}
+		}
+	case *ssa.ChangeType:
+		return funcTargetsLive(c, x.X, live, depth+1)
+	case *ssa.Phi:
+		var out []*ssa.Function
+		for i, e := range x.Edges {
+			if e == ssa.Value(x) || (live != nil && !live(x, i)) {
+				continue
+			}
+			t := funcTargetsLive(c, e, live, depth+1)
+			if t == nil {
+				return nil
+			}
+			out = append(out, t...)
+		}
+		return out
+	case *ssa.Parameter:
+		fn := x.Parent()
+		if fn == nil || (fn.Object() != nil && fn.Object().Exported()) {
+			return nil
+		}
+		idx := paramIndex(fn, x)
+		var out []*ssa.Function
+		n := 0
+		for _, g := range c.Funcs {
+			for _, b := range g.Blocks {
+				for _, ins := range b.Instrs {
+					call, ok := ins.(ssa.CallInstruction)
+					if !ok {
+						continue
+					}
+					var callee *ssa.Function
+					if f := call.Common().StaticCallee(); f != nil {
+						callee = f
+					}
+					if callee != fn || idx >= len(call.Common().Args) {
+						continue
+					}
+					n++
+					t := funcTargets(c, call.Common().Args[idx], depth+1)
+					if t == nil {
+						return nil
+					}
+					out = append(out, t...)
+				}
+			}
+		}
+		if n == 0 {
+			return nil
+		}
+		return out
+	}
+	return nil
+}
+
+
+// unthunk: the method behind the wrapper a method expression T.M denotes (same parameters, receiver first).
+func unthunk(fn *ssa.Function) *ssa.Function {
+	if fn.Synthetic != "" && fn.Pkg == nil && fn.Parent() == nil && strings.HasSuffix(fn.Name(), "$thunk") && fn.Object() != nil && fn.Prog != nil {
+		if m, ok := fn.Object().(*types.Func); ok {
+			if real := fn.Prog.FuncValue(m); real != nil && len(real.Params) == len(fn.Params) {
+				return real
+			}
+		}
+	}
+	return fn
 }
